@@ -497,7 +497,12 @@ def handleOps (op : String) (args : List String) (impl : Impl) : Option Ans :=
       | .ok [c1, e1, c2, e2, c3, c4, rg] =>
         verdict [("cmp", c1 == toString wc), ("eq", e1 == bool01 (wc == 0)), ("reverse_cmp", c2 == toString (-wc)),
                  ("reverse_eq", e2 == bool01 (wc == 0)), ("left_converted", ins || c3 == toString wc), ("right_converted", ins || c4 == toString wc),
-                 ("range_contains", sval a.dur ≥ DMAX || rg == bool01 (ia ≤ ib && ib < ia + 1))]
+                 -- the range is `a .. a + 1 ns`; its end is the epoch one count later IN a's SCALE (in UTC that
+                 -- can be a whole inserted second later as an instant)
+                 ("range_contains", sval a.dur ≥ DMAX ||
+                    (match instant iersTbl a.ts.name (sval a.dur + 1) with
+                     | some iend => rg == bool01 (ia ≤ ib && ib < iend)
+                     | none => true))]
       | .other w => "FAIL:" ++ w
       | _ => "FAIL:decode"
     pure { model := m, spec := sp, branch := "ecmpconv:" ++ a.ts.name ++ "," ++ b.ts.name ++ ">" ++ ts.name ++ (if !fits then ":saturating" else if ins then ":inserted" else "") }
